@@ -454,7 +454,8 @@ class Walker:
         if F is None or not t.get("fn") or (getattr(F, "known_fn_ids", None) is None and not self.inline_all):
             return None
         res = t.get("res") or {}
-        for fid in (res.get("def"), t.get("fn")):
+        via = (res.get("via_from") or {}).get("def")        # x.into() is <U as From<T>>::from(x): the impl the compiler picked
+        for fid in (via, res.get("def"), t.get("fn")):
             if fid and fid != self.fn.id and F.is_new_fn(fid):
                 return fid
             if self.inline_all and fid and fid != self.fn.id and fid not in getattr(F, "noinline", ()):
@@ -471,7 +472,9 @@ class Walker:
         if g is None:
             return None
         names = g.j.get("generics")
-        if res.get("def") == inl and res.get("targs") is not None:
+        if (res.get("via_from") or {}).get("def") == inl and (res.get("via_from") or {}).get("targs") is not None:
+            targs = res["via_from"]["targs"]
+        elif res.get("def") == inl and res.get("targs") is not None:
             # a trait method call resolved to this impl item: the resolved instance's arguments (impl parameters, then the
             # method's own) say what the body's parameter names stand for here
             targs = res["targs"]
